@@ -25,6 +25,9 @@ deriving DecidableEq, Repr
 inductive Tag
   | none | doCollection | sweepOne | contextDrop | dropAllDrop | gcPtrDropInPlace | gcPtrDealloc
   | contextNew | metricsNew
+  /-- private helper of the collector driver: every caller is the driver or another such helper
+  (assigned by the translator from the graph; re-checked by `entersOnlyVia`) -/
+  | driverPart
 deriving DecidableEq, Repr
 
 structure FnInfo where
@@ -146,6 +149,47 @@ theorem reach_into_back_closed (adj : Adj) (t : Nat) (hc : backClosedB adj t = t
       rw [h0] at this
       simp at this
     simpa using backClosedFrom_spec adj 0 t hc a m hm hne
+
+/-- No node outside `inside` has an edge into `parts`: whoever enters `parts` from outside
+`inside` … does not exist; `parts` is only entered from `inside`. -/
+def entersOnlyViaFrom : Adj → Nat → Nat → Nat → Bool
+  | [], _, _, _ => true
+  | m :: rest, i, inside, parts =>
+    (inside.testBit i || (m &&& parts) == 0) && entersOnlyViaFrom rest (i + 1) inside parts
+
+def entersOnlyVia (adj : Adj) (inside parts : Nat) : Bool := entersOnlyViaFrom adj 0 inside parts
+
+theorem entersOnlyViaFrom_spec (adj : Adj) (i inside parts : Nat)
+    (h : entersOnlyViaFrom adj i inside parts = true)
+    (k m : Nat) (hk : adj[k]? = some m) (hne : (m &&& parts) ≠ 0) : inside.testBit (i + k) = true := by
+  induction adj generalizing i k with
+  | nil => simp at hk
+  | cons m0 rest ih =>
+    simp only [entersOnlyViaFrom, Bool.and_eq_true, Bool.or_eq_true, beq_iff_eq] at h
+    cases k with
+    | zero =>
+      simp only [List.getElem?_cons_zero, Option.some.injEq] at hk
+      subst hk
+      rcases h.1 with h1 | h1
+      · simpa using h1
+      · exact absurd h1 hne
+    | succ k =>
+      simp only [List.getElem?_cons_succ] at hk
+      have : i + (k + 1) = (i + 1) + k := by omega
+      rw [this]
+      exact ih (i + 1) h.2 k hk
+
+/-- If `parts` is only entered from `inside`, every edge into `parts` starts in `inside`. -/
+theorem edge_into_parts (adj : Adj) (inside parts : Nat) (hc : entersOnlyVia adj inside parts = true)
+    (a b : Nat) (hab : Edge adj 0 a b) (hb : parts.testBit b = true) : inside.testBit a = true := by
+  obtain ⟨_, m, hm, hmb⟩ := hab
+  have hne : (m &&& parts) ≠ 0 := by
+    intro h0
+    have : (m &&& parts).testBit b = true := by
+      simp only [Nat.testBit_and, hmb, hb, Bool.and_self]
+    rw [h0] at this
+    simp at this
+  simpa using entersOnlyViaFrom_spec adj 0 inside parts hc a m hm hne
 
 /-- Mask of the positions `i, i+1, …` of the functions satisfying `p`. -/
 def maskFrom (p : FnInfo → Bool) : List FnInfo → Nat → Nat
